@@ -223,3 +223,20 @@ func RichEmptiedCfg(id string, extra int, registered bool, feat uint32, oracles 
 	}
 	return c
 }
+
+// RichOrphanCfg starts from: a dead target T whose table in node {R} was retired after two children were created and
+// removed again, and an orphan in node {R,A} that still points to the dead T.
+func RichOrphanCfg(id string, extra int, registered bool, feat uint32, oracles uint32) *Cfg {
+	c := RelCfg(id, 0, 4+extra, 0, 8, feat|FBuilder, oracles)
+	c.Prologue = []wx.Op{
+		{K: OpNewEntity, A: 0},                    // e0 = T
+		{K: OpBuilderNew, A: 1, B: 1, C: 0, D: 0}, // e1 {R} -> T
+		{K: OpBuilderNew, A: 1, B: 1, C: 0, D: 0}, // e2 {R} -> T (a second look-up of T's table)
+		{K: OpBuilderNew, A: 2, B: 1, C: 0, D: 0}, // e3 {R,A} -> T
+	}
+	if registered {
+		c.Prologue = append(c.Prologue, wx.Op{K: OpRegister, A: encodeRef(0, -1, false)})
+	}
+	c.Prologue = append(c.Prologue, wx.Op{K: OpRemoveEntity, A: 1}, wx.Op{K: OpRemoveEntity, A: 2}, wx.Op{K: OpRemoveEntity, A: 0})
+	return c
+}
